@@ -98,7 +98,7 @@ def check_truncation(case):
 
 # ---- (iii) streams with damaged messages ----------------------------------------------------------
 FAULTS = ['stop', 'unknown_element', 'unknown_sequence', 'length_minus', 'length_plus', 'element_to_operator']
-UNKNOWN_E = [63255, 48001, 1250, 12250]
+UNKNOWN_E = [63255, 48001, 1250, 12250, 31003, 31255]
 UNKNOWN_S = [363255, 348001, 301250]
 
 
@@ -117,8 +117,13 @@ def apply_fault(case, fault, ch):
         if not pos:
             raise Reject('no descriptor of that kind to replace')
         i = pos[ch.int(0, len(pos) - 1)]
+        factors = [k for k in pos if case.ids[k] // 1000 == 31 and k and case.ids[k - 1] // 100000 == 1]
+        if want_f == 0 and factors and ch.bool(1, 3):
+            i = factors[ch.int(0, len(factors) - 1)]       # the factor position of a delayed replication
         pool = UNKNOWN_E if want_f == 0 else UNKNOWN_S
         cands = [u for u in pool if u not in case.tables.B and u not in case.tables.D]
+        if want_f == 0 and case.ids[i] // 1000 == 31 and ch.bool(1, 2):
+            cands = [u for u in cands if u // 1000 == 31] or cands   # an undefined id of the class the position calls for
         u = ch.choice(cands)
         off = info['offsets'][3] + 7 + 2 * i
         f, x, y = u // 100000, (u // 1000) % 100, u % 1000
